@@ -93,6 +93,19 @@ def build(case):
     return ser(obj, "bare")
 
 
+STREAMS = {}
+
+
+def stream(data, i):
+    """every other case reads from ONE long-lived stream object per payload (rewound), shared with earlier cases that ran
+    under other additions: what is mediated depends on the activation in force, not on who read the stream before"""
+    if i % 2:
+        return io.BytesIO(data)
+    st = STREAMS.setdefault(data, io.BytesIO(data))
+    st.seek(0)
+    return st
+
+
 def reset():
     pickle.load, pickle.loads, _pickle.load, _pickle.loads, pickle.Unpickler = ORIG
     ml.ML_ALLOWLIST.clear()
@@ -138,11 +151,11 @@ def main():
         exc = ""
         try:
             if c["entry"] == "load":
-                pickle.load(io.BytesIO(data))
+                pickle.load(stream(data, i))
             elif c["entry"] == "loads":
                 pickle.loads(data)
             elif c["entry"] == "cload":
-                _pickle.load(io.BytesIO(data))
+                _pickle.load(stream(data, i))
             else:
                 _pickle.loads(data)
             o = "returned"
